@@ -70,6 +70,7 @@ class Observer:
         self.inline, self.m2v, self.errors = [], [], []
         self.max_insts = max_insts
         self.skipped_big = 0
+        self.origin = None          # what is being compiled (corpus program / hand-written family), for reports
 
     def __enter__(self):
         from vyper.venom.passes.function_inliner import FunctionInlinerPass as FI
@@ -114,7 +115,8 @@ class Observer:
         sb = bbs.index(call_site.parent)
         idx = call_site.parent.instructions.index(call_site)
         prefix = f"inl{pass_.inline_count}_"
-        rec = {"caller": caller, "caller_name": caller.name.value, "callee_name": func.name.value, "prefix": prefix, "sb": sb, "idx": idx,
+        rec = {"ctx_before": {f.name.value: str(f) for f in ctx.functions.values()}, "ctx": ctx,
+               "caller": caller, "caller_name": caller.name.value, "callee_name": func.name.value, "prefix": prefix, "sb": sb, "idx": idx,
                "cf": fids[caller.name.value], "g": fids[func.name.value], "F": fe.term(), "G": ge.term(), "F_text": fe.text(),
                "G_text": ge.text(), "var_c": var_c, "var_g": var_g, "fids": fids, "foreign": foreign,
                "supported": fe.entry_first and ge.entry_first, "ninsts": fe.ninsts() + ge.ninsts()}
@@ -132,13 +134,17 @@ class Observer:
                 rec["var_c"][new] = len(rec["var_c"])      # never used in the clone (dead): any fresh id will do
             rho.append((gid, rec["var_c"][new]))
         rec["rho"] = "[" + "; ".join(f"({a}%N, {b}%N)" for a, b in rho) + "]"
-        del rec["caller"], rec["var_c"], rec["var_g"]
+        rec["ctx_after"] = {f.name.value: str(f) for f in rec["ctx"].functions.values()}
+        rec["entry"] = rec["ctx"].entry_function.name.value if rec["ctx"].entry_function is not None else None
+        rec["origin"] = self.origin
+        del rec["caller"], rec["var_c"], rec["var_g"], rec["ctx"]
         self.inline.append(rec)
 
 
 def inline_expr(rec):
-    return (f"[if inline_check {rec['F']} {rec['G']} {rec['cf']}%nat {rec['g']}%nat {rec['sb']}%nat {rec['idx']}%nat "
-            f"{rec['rho']} {rec['F2']} then 1 else 0]")
+    """[in the validator's domain?; accepted?]"""
+    a = f"{rec['F']} {rec['G']} {rec['cf']}%nat {rec['g']}%nat {rec['sb']}%nat {rec['idx']}%nat"
+    return (f"[if inline_domain {a} then 1 else 0; if inline_check {a} {rec['rho']} {rec['F2']} then 1 else 0]")
 
 
 IMPORTS = "From Verif Require Import C14I.ISyn C14I.M2V.\nOpen Scope string_scope.\n"
@@ -146,3 +152,165 @@ IMPORTS = "From Verif Require Import C14I.ISyn C14I.M2V.\nOpen Scope string_scop
 
 def evaluate(exprs, name, shard=8, timeout=600):
     return coqrun.eval_zlists(IMPORTS, exprs, name, shard=shard, timeout=timeout)
+
+
+# ------------------------------------------------------------------ the part
+def _abi_inputs(src, rnd, n=6):
+    """calldata for a corpus contract: every external function with static word arguments, seeded argument values"""
+    import warnings as _w
+    from vyper.compiler import compile_code
+    from vyper.utils import method_id
+    with _w.catch_warnings():
+        _w.simplefilter("ignore")
+        abi = compile_code(src, output_formats=["abi"])["abi"]
+    out = []
+    for e in abi:
+        if e.get("type") != "function":
+            continue
+        tys = [i["type"] for i in e["inputs"]]
+        if any(("[" in t or t in ("bytes", "string") or t.startswith("(")) for t in tys):
+            continue
+        for _ in range(2):
+            words = [rnd.choice([0, 1, 2, 5, rnd.randrange(2**16), rnd.randrange(2**256)]) for _ in tys]
+            data = method_id(f"{e['name']}({','.join(tys)})") + b"".join((w % 2**256).to_bytes(32, "big") for w in words)
+            out.append({"data": data.hex(), "value": 0, "sender": "0x" + "11" * 20})
+    rnd.shuffle(out)
+    return out[:n] or [{"data": "", "value": 0, "sender": "0x" + "11" * 20}]
+
+
+def search_inline(ctx, rec, inputs):
+    """a rejected call site: run the contexts before / after this inlining step in the Coq Venom semantics of
+    coq/C14/VenomCall.v (differential harness of the pass-level part) and look for an input with different behaviour"""
+    try:
+        from vlib import c14_pass_sem as SEM
+        res = SEM.context_differential(rec["ctx_before"], rec["ctx_after"], inputs, top=rec.get("entry") or "main", tag="c14i")
+    except Exception as e:   # the search is best effort
+        ctx.log(f"c14i search failed: {type(e).__name__}: {str(e)[:200]}")
+        return None
+    for i, j, code, why in res:
+        if code == 2:
+            return {"input": inputs[i], "observations": str(why)[:1500]}
+    stuck = [(i, why) for i, j, code, why in res if code == 1]
+    if stuck:
+        # which side is stuck?  the context before the pass against itself
+        try:
+            ref = SEM.context_differential(rec["ctx_before"], rec["ctx_before"], inputs, top=rec.get("entry") or "main", tag="c14i")
+        except Exception:
+            ref = []
+        fine = {i for i, j, code, why in ref if code == 0}
+        for i, why in stuck:
+            if i in fine:
+                return {"input": inputs[i], "observations": "the context before the pass runs to completion in the Coq Venom semantics, the context "
+                        "after the pass gets stuck (" + str(why)[:300] + ")"}
+    return {"not_comparable": [str(w)[:200] for _, _, c, w in res if c == 1][:3]} if res else None
+
+
+def part_inline_mem2var(ctx):
+    """FunctionInlinerPass per inlined call site and Mem2Var per promoted alloca: every real invocation during corpus
+    compiles and on hand-written Venom IR is checked by the verified validators of coq/C14I (theorems inline_check_sound,
+    mem2var_check_sound).  Returns the number of non-trivial validated instances."""
+    import warnings as _w
+    from vlib import c14_pass_corpus as PC, c14i_families as FAM, c14i_m2v as M2
+    from vyper.compiler import compile_code
+    from vyper.compiler.settings import OptimizationLevel, Settings, VenomOptimizationFlags
+    from vyper.venom.analysis import IRAnalysesCache
+    from vyper.venom.parser import parse_venom
+    from vyper.venom.passes import FunctionInlinerPass
+    quick = ctx.tier != "thorough"
+    ctx.coq_build_cached(COQ_MODEL, timeout=600)
+    proofs = [f for f in COQ_PROOFS if (COQ / f).exists()]
+    b = ctx.coq_build_cached(proofs, deps=COQ_MODEL, timeout=1200)
+    rnd = ctx.rng("c14i")
+    progs = PC.select(ctx.tier, rnd)
+    levels = [OptimizationLevel.GAS, OptimizationLevel.CODESIZE] if quick else [OptimizationLevel.GAS, OptimizationLevel.CODESIZE, OptimizationLevel.O3]
+    nfail = 0
+    fams = FAM.inline_programs(rnd, 25 if quick else 300)
+    m2fams = FAM.m2v_programs(rnd, 24 if quick else 200)
+    srcs = {}
+    with _w.catch_warnings():
+        _w.simplefilter("ignore")
+        with Observer(max_insts=700 if quick else 4000) as obs:
+            for c in progs:
+                for lvl in levels:
+                    obs.origin = f"corpus:{c['name']}@{lvl.name}"
+                    srcs[obs.origin] = c["src"]
+                    try:
+                        compile_code(c["src"], output_formats=["bytecode"], settings=Settings(experimental_codegen=True, optimize=lvl))
+                    except Exception:
+                        nfail += 1
+            fam_inputs = {}
+            for k, pr in enumerate(fams):
+                obs.origin = f"family:{pr['name']}#{k}"
+                fam_inputs[obs.origin] = pr["inputs"]
+                try:
+                    vctx = parse_venom(pr["text"])
+                    an = {fn: IRAnalysesCache(fn) for fn in vctx.functions.values()}
+                    FunctionInlinerPass(an, vctx, VenomOptimizationFlags(level=OptimizationLevel.CODESIZE, inline_threshold=pr.get("threshold"))).run_pass()
+                except Exception as e:
+                    ctx.violation("failing-input", f"FunctionInlinerPass raises {type(e).__name__} on a well-formed hand-written context",
+                                  {"venom": pr["text"], "error": str(e)[:300]}, key="c14i:inline:exception:" + type(e).__name__)
+            M2.run_families(obs, m2fams, ctx)
+    found = False
+    if obs.errors:
+        ctx.violation("correspondence-broken", "cannot export an inlined call site / promoted alloca: " + obs.errors[0], {"errors": obs.errors[:5]})
+    sites = obs.inline
+    cap = 60 if quick else 100000
+    if len(sites) > cap:
+        fam_sites = [s_ for s_ in sites if s_["origin"].startswith("family:")]
+        rest = sorted([s_ for s_ in sites if not s_["origin"].startswith("family:")], key=lambda s_: -s_["ninsts"])
+        keep = max(0, cap - len(fam_sites))
+        sites = fam_sites + rest[:keep // 2] + rnd.sample(rest[keep // 2:], min(len(rest) - keep // 2, keep - keep // 2))
+    stats = {"call_sites_seen": len(obs.inline), "checked": len(sites), "accepted": 0, "rejected": 0, "unsupported": 0,
+             "too_big_skipped": obs.skipped_big, "compile_failures": nfail, "corpus_sites": sum(1 for s_ in sites if s_["origin"].startswith("corpus:")),
+             "family_sites": sum(1 for s_ in sites if s_["origin"].startswith("family:")), "unsupported_reasons": {}}
+    model_ok = (COQ / "C14I" / "ISyn.vo").exists()
+    if model_ok and sites:
+        try:
+            res = evaluate([inline_expr(s_) for s_ in sites], "c14i_inline", shard=max(4, len(sites) // 6 + 1), timeout=900)
+        except RuntimeError as e:
+            res = None
+            ctx.violation("correspondence-broken", "the inlining validator could not be evaluated on the exported call sites", {"error": str(e)[-1500:]})
+        rejected = []
+        for s_, r in zip(sites, res or []):
+            if not s_["supported"] or len(r) < 2 or r[0] != 1:
+                stats["unsupported"] += 1
+                why = "entry block is not the first block" if not s_["supported"] else "outside inline_domain (callee shape / labels / structure)"
+                stats["unsupported_reasons"][why] = stats["unsupported_reasons"].get(why, 0) + 1
+                continue
+            if r[1] == 1:
+                stats["accepted"] += 1
+                continue
+            stats["rejected"] += 1
+            rejected.append(s_)
+        # Search: smallest hand-written contexts first (they are inside the domain of the Coq Venom semantics)
+        rejected.sort(key=lambda s_: (not s_["origin"].startswith("family:"), s_["ninsts"]))
+        pending = []
+        for s_ in rejected[:8]:
+            inputs = fam_inputs.get(s_["origin"])
+            if inputs is None:
+                try:
+                    inputs = _abi_inputs(srcs[s_["origin"]], rnd)
+                except Exception:
+                    inputs = []
+            hit = search_inline(ctx, s_, inputs) if inputs else None
+            detail = {"origin": s_["origin"], "caller": s_["caller_name"], "callee": s_["callee_name"], "call_site": [s_["sb"], s_["idx"]],
+                      "caller_before": s_["F_text"][:5000], "callee_text": s_["G_text"][:5000], "caller_after": s_["F2_text"][:7000]}
+            if hit and "input" in hit:
+                found = True
+                ctx.violation("failing-input", "FunctionInlinerPass changes the behaviour of the context: the caller after inlining this call site is not "
+                              "the caller before with the invoke replaced by the renamed callee body (inline_check rejects), and the contexts "
+                              "before / after behave differently on this input",
+                              dict(detail, context_before=s_["ctx_before"], context_after=s_["ctx_after"], **hit),
+                              key="c14i:inline:" + s_["origin"].split("#")[0])
+                break
+            pending.append(dict(detail, theorem="inline_check_sound (inline_check = false inside inline_domain)", search=hit))
+        if not found:
+            for d_ in pending[:2]:
+                ctx.violation("theorem-broken", "inline_check_sound does not apply: the caller after FunctionInlinerPass._inline_call_site is not the "
+                              "caller before with the invoke replaced by the renamed callee body wired as specified (params in order, every ret "
+                              "rewired, return values in order, injective fresh renaming)", d_)
+    n_m2v = M2.report(ctx, obs, quick, rnd)
+    if not b["ok"] and not found:
+        ctx.violation("theorem-broken", f"{b.get('failed_lemma')} in {b['file']}", {"theorem": b.get("failed_lemma"), "file": b["file"], "coq_output": b["out"][-1500:]})
+    ctx.corr["inline"] = stats
+    return stats["accepted"] + n_m2v
